@@ -707,6 +707,10 @@ class Emitter:
         return self.expr(e.e, env, k1)
 
     def e_range(self, e, env, k):
+        hook = self.v.get("range_hook")
+        if hook is not None:
+            # optional vocabulary key `range_hook`: callable(em, e, env, k) for a range used as a value
+            return hook(self, e, env, k)
         raise EmitError("range expression outside an index / for loop")
 
     def e_structlit(self, e, env, k):
@@ -1052,6 +1056,23 @@ class Emitter:
                 raise EmitError("pattern %s: %d fields, the vocabulary models %s" % (pat.segs[-1], len(pat.elems), sorted(st["fields"])))
             tys = tuple(st["fields"][str(i)][2] for i in range(len(pat.elems)))
             return self.bind_pattern(N("ptuple", elems=pat.elems), term, ("tuple", tys), env, k)
+        if pat.kind == "pstruct" and self.v.get("structs", {}).get(pat.segs[-1], {}).get("fields") and not pat.rest:
+            # `let SGR { fg, bg, .. } = sgr;` on a vocabulary struct (named fields, all of them): every field pattern is
+            # bound to the field's getter applied to the value
+            st = self.v["structs"][pat.segs[-1]]
+            if ty != ("struct", pat.segs[-1]) and ty != UNKNOWN:
+                raise EmitError("pattern %s against a value of type %r" % (pat.segs[-1], ty))
+            if sorted(f for f, _p in pat.fields) != sorted(st["fields"]):
+                raise EmitError("pattern %s: fields %r, the vocabulary models %s" % (pat.segs[-1], [f for f, _p in pat.fields], sorted(st["fields"])))
+            flds = list(pat.fields)
+
+            def go_f(j, envx):
+                if j == len(flds):
+                    return k(envx)
+                f, p = flds[j]
+                getter, _setter, fty = st["fields"][f]
+                return self.bind_pattern(p, "(%s %s)" % (getter, term), fty, envx, lambda e3: go_f(j + 1, e3))
+            return go_f(0, env)
         raise EmitError("refutable or unsupported pattern %s in let" % pat.kind)
 
     def let_stmt(self, s, env, rest):
